@@ -169,6 +169,41 @@ Proof.
   cbv zeta. eexists. split; [vm_compute; left; reflexivity|]. vm_compute. repeat split; reflexivity.
 Qed.
 
+(* ---------- ${first()} / ${last()} (gen/funcs.go goParserAction) ----------
+   At every site the model reaches (the state after the items l1 of the expansion): ${first()..} reads the FIRST
+   entry the rule has pushed and ${last()..} the LAST one pushed before the action -- value / start / end of
+   that entry -- when it belongs to a symbol carrying a position ([entry_tags]: true for such symbols, false for
+   an extracted mid-rule nonterminal and for the recursive reference of a list rule); for an entry without a
+   position the generator stops with "internal error: cannot find the position for index" (AErr 7); when
+   the rule has pushed nothing both are nil / -1. So first()/last() denote the first / last symbol of the
+   EXPANDED rule up to the action, not a position of the original rule. *)
+Theorem C16_first_last_bind : forall ca l1 ch start st rm b ch' cur base lhs pr,
+  state_after l1 [] [] [] ch start = Some (st, rm, b, ch', cur) ->
+  eval_ref ca rm (length st) (base ++ st) lhs RFirst pr =
+    match st with
+    | [] => absent_arg pr
+    | e0 :: _ => if hd false (entry_tags l1) then entry_arg e0 pr else AErr 7
+    end /\
+  eval_ref ca rm (length st) (base ++ st) lhs RLast pr =
+    match rev st with
+    | [] => absent_arg pr
+    | e1 :: _ => if hd false (rev (entry_tags l1)) then entry_arg e1 pr else AErr 7
+    end.
+Proof. exact first_last_bind. Qed.
+
+(* ta? tb { first().offset, last() } tc { first(), last().endoffset } without ta;
+   { first().offset } ta { first().offset, last().offset } : the first entry is the mid-rule nonterminal *)
+Example C16_first_last_example :
+  let body := PSeq (POpt (PSym 1 1 0)) (PSeq (PSym 2 2 0) (PSeq (PCmd 5) (PSeq (PSym 3 3 0) (PCmd 7)))) in
+  let tab := [(5%N, [(RFirst, POffset); (RLast, PValue)]); (7%N, [(RFirst, PValue); (RLast, PEndoffset)])] in
+  let body2 := PSeq (PCmd 5) (PSeq (PSym 1 1 0) (PCmd 7)) in
+  let tab2 := [(5%N, [(RFirst, POffset)]); (7%N, [(RFirst, POffset); (RLast, POffset)])] in
+  run_node tab body false [false] [mkE (V 99) 0 1] [mkE (V 5) 3 4; mkE (V 6) 4 5] 3%Z
+    = [(5%N, [AInt 3%Z; AVal 5]); (7%N, [AVal 5; AInt 5%Z])] /\
+  run_node tab2 body2 false [] [] [mkE (V 4) 0 1] 0%Z
+    = [(5%N, [AM1]); (7%N, [AErr 7; AInt 0%Z])].
+Proof. cbv zeta. split; vm_compute; reflexivity. Qed.
+
 (* ta[x]? tb { $$ = f($x, $1, ${x.offset}) } : the expansion without ta *)
 Example C16_example :
   let body := PSeq (POpt (PAlias 1000 (PSym 1 1 0))) (PSeq (PSym 2 2 0) (PCmd 7)) in
@@ -195,3 +230,4 @@ Print Assumptions C16_alias_covers_exactly_its_symbols.
 Print Assumptions C16_top_table_exact.
 Print Assumptions C16_final_action_table_exact.
 Print Assumptions C16_named_ref_denotes_occurrence.
+Print Assumptions C16_first_last_bind.
